@@ -1,10 +1,33 @@
 package simharness
 
-import "github.com/ddddddO/gtree/simrt"
+import (
+	"runtime"
+	"runtime/debug"
 
-// raceDetector: placeholder until the level-2 build is wired in.
-type raceDetector struct{ run *simrt.Run }
+	"github.com/ddddddO/gtree/simrt"
+)
 
-func newRaceDetector(r *simrt.Run) *raceDetector { return &raceDetector{run: r} }
-func (d *raceDetector) envCancel()              {}
-func (d *raceDetector) reports() []string       { return nil }
+// raceDetector switches on simrt's vector-clock detector for a run (level-2 build only).
+// The garbage collector is off while the run lasts so that addresses are not reused.
+type raceDetector struct {
+	run  *simrt.Run
+	prev int
+}
+
+var raceRuns int
+
+func newRaceDetector(r *simrt.Run) *raceDetector {
+	r.EnableRace()
+	return &raceDetector{run: r, prev: debug.SetGCPercent(-1)}
+}
+
+func (d *raceDetector) envCancel() {}
+
+func (d *raceDetector) reports() []string {
+	debug.SetGCPercent(d.prev)
+	raceRuns++
+	if raceRuns%64 == 0 {
+		runtime.GC()
+	}
+	return d.run.Races()
+}
